@@ -563,7 +563,7 @@ class plscf_exact(_Exact):
     bounded_reason = ("unsupported: 'reproduces the coefficients of an exactly rational spectrum' is a theorem about the reduced normal equations (least squares "
                       "with exact data) and floating-point conditioning; np.kron / solve over growing block matrices are outside the modelled subset")
     bounded_bound = ("orders 1-4, 2-4 channels, 1-Nch reference rows, 4(n+1)..4(n+1)+29 lines, dt in {0.01, 0.05, 0.2}, both basis-function signs, ordmax in {n, n+1}; "
-                     "coefficients compared to 1e-6, reported poles against the roots of det A(x) from an independent companion matrix")
+                     "coefficients compared to 1e-4, reported poles against the roots of det A(x) from an independent companion matrix")
     bounded_driver = {"driver": "c05_exact", "inputs": {"trials": 25, "trials_thorough": 300}}
 
 
